@@ -352,7 +352,7 @@ class Contract:
       c = cl(a, unwrap(res, p))
       if c is not None and c is not True:
         p.assume(c)
-    p.events.append(('call', self.target))
+    p.events.append(('call', self.target, dict(env), res))
     out.append((p, res))
     return out
 
